@@ -1,2 +1,143 @@
-(* C05 — property theorems (being built). *)
-From Klog Require Import Base.Prelude Model.Reconcile Model.Commands.
+(* C05 — a mutating command either leaves a valid file or leaves the file untouched.
+   Property theorems only; each is closed by [exact <lemma>] and followed by Print Assumptions.
+   Model: Model/Commands.v — [exec now cfg c file] returns the file after the command and the reported result;
+   [exec_simple] is the command up to the write; [reconcile_file] is app.ReconcileFile without I/O
+   (parse -> creators -> steps -> MakeResult safeguard); [run_steps], [parses] are in Proofs/Commands.v.
+   These theorems are about the model's control flow; that the implementation's control flow is the model's is what
+   the commands-faults suite checks (file bytes, error class and exit code of the real commands).
+   Not modelled: the process exit code (the harness reads it off klog.Run) and a crash during os.WriteFile. *)
+From Klog Require Import Base.Prelude Model.Calendar Model.Values Model.Record Model.Lines Model.Parser
+  Model.Reconcile Model.Commands Proofs.Commands.
+Open Scope Z_scope.
+
+(* 1. success: what is written parses without errors *)
+Theorem C05_exec_ok_valid : forall now cfg c file file', exec_simple now cfg c file = COk file' ->
+  exists rs bs, parse_text file' = Ok (Parsed rs bs).
+Proof. exact exec_ok_valid. Qed.
+Print Assumptions C05_exec_ok_valid.
+
+Theorem C05_exec_success_valid : forall now cfg c file file', exec now cfg c file = (file', COk tt) ->
+  exists rs bs, parse_text file' = Ok (Parsed rs bs).
+Proof. exact exec_success_valid. Qed.
+Print Assumptions C05_exec_success_valid.
+
+(* whatever the command and its outcome — `pause` with all its ticks included, which writes once per step and keeps
+   what earlier steps wrote: the file afterwards is the file before, or one that parses *)
+Theorem C05_exec_written_valid : forall now cfg c file,
+  fst (exec now cfg c file) = file \/ exists rs bs, parse_text (fst (exec now cfg c file)) = Ok (Parsed rs bs).
+Proof. exact exec_written_valid. Qed.
+Print Assumptions C05_exec_written_valid.
+
+(* 2. failure: every command but pause writes at most once, at the very end — a reported error or a panic leaves the
+      file's bytes exactly as they were *)
+Theorem C05_exec_err_no_write : forall now cfg c file file' res, is_pause_cmd c = false ->
+  exec now cfg c file = (file', res) -> res <> COk tt -> file' = file.
+Proof. exact exec_err_no_write. Qed.
+Print Assumptions C05_exec_err_no_write.
+
+(* the only way to success: the target parsed, a creator yielded a reconciler, EVERY step succeeded, and the written
+   text is the final reconciler's lines, which passed the safeguard re-parse *)
+Theorem C05_reconcile_file_ok : forall file mk steps file', reconcile_file file mk steps = COk file' ->
+  exists rs bs r0 r rs', parse_text file = Ok (Parsed rs bs) /\ mk rs bs = COk r0 /\
+    run_steps rs steps (COk r0) = COk r /\ file' = text_of_lines (rc_lines r) /\
+    make_result r = Some (file', rs') /\ exists bs', parse_text file' = Ok (Parsed rs' bs').
+Proof. exact reconcile_file_ok. Qed.
+Print Assumptions C05_reconcile_file_ok.
+
+(* 3. the failure classes *)
+(* unparseable target *)
+Theorem C05_unparseable : forall file mk steps es, parse_text file = Ok (Failed es) ->
+  reconcile_file file mk steps = CErr CEParse.
+Proof. exact reconcile_file_unparseable. Qed.
+Print Assumptions C05_unparseable.
+
+(* ... at command level: the error is "parse" unless resolving the arguments (date, time) already failed, which does
+   not depend on the file at all *)
+Theorem C05_exec_unparseable : forall now cfg c file es, parse_text file = Ok (Failed es) -> is_pause_cmd c = false ->
+  exec_simple now cfg c file = CErr CEParse \/
+  (forall file2, exec_simple now cfg c file2 = exec_simple now cfg c file) /\ forall f, exec_simple now cfg c file <> COk f.
+Proof. exact exec_unparseable. Qed.
+Print Assumptions C05_exec_unparseable.
+
+(* no matching record: no creator applies *)
+Theorem C05_no_creator : forall cs, Forall (fun o => o = None) cs -> first_creator cs = CErr CENoSuchRecord.
+Proof. exact first_creator_none. Qed.
+Print Assumptions C05_no_creator.
+
+Theorem C05_creator_error : forall file mk steps rs bs e, parse_text file = Ok (Parsed rs bs) -> mk rs bs = CErr e ->
+  reconcile_file file mk steps = CErr e.
+Proof. exact reconcile_file_no_creator. Qed.
+Print Assumptions C05_creator_error.
+
+Theorem C05_switch_no_record : forall now cfg a s file d t rs bs,
+  at_date now (a_date a) = Ok d -> at_time now cfg a = COk t ->
+  parse_text file = Ok (Parsed rs bs) -> reconciler_at_record (dt d) rs bs = None ->
+  exec now cfg (Switch a s) file = (file, CErr CENoSuchRecord).
+Proof. exact switch_no_record. Qed.
+Print Assumptions C05_switch_no_record.
+
+(* a logical error in step k of an n-step command: the command reports that error and returns no file *)
+Theorem C05_step_fails : forall file mk s1 step s2 rs bs r0 rk e,
+  parse_text file = Ok (Parsed rs bs) -> mk rs bs = COk r0 ->
+  run_steps rs s1 (COk r0) = COk rk -> step rs rk = CErr e ->
+  reconcile_file file mk (s1 ++ step :: s2) = CErr e.
+Proof. exact reconcile_file_step_fails. Qed.
+Print Assumptions C05_step_fails.
+
+Theorem C05_step_crashes : forall file mk s1 step s2 rs bs r0 rk,
+  parse_text file = Ok (Parsed rs bs) -> mk rs bs = COk r0 ->
+  run_steps rs s1 (COk r0) = COk rk -> step rs rk = CCrash ->
+  reconcile_file file mk (s1 ++ step :: s2) = CCrash.
+Proof. exact reconcile_file_step_crashes. Qed.
+Print Assumptions C05_step_crashes.
+
+(* switch: the stop half succeeded, the start half fails — nothing is written *)
+Theorem C05_switch_second_step_fails : forall now cfg a s file d t rs bs r0 r1 e,
+  at_date now (a_date a) = Ok d -> at_time now cfg a = COk t ->
+  parse_text file = Ok (Parsed rs bs) -> reconciler_at_record (dt d) rs bs = Some r0 ->
+  close_open_range r0 t (time_format cfg a) [] = ROk r1 ->
+  (let+ summary := resolve_summary s (rc_record r1) None in
+   lift_r (start_open_range r1 t (time_format cfg a) summary)) = CErr e ->
+  exec now cfg (Switch a s) file = (file, CErr e).
+Proof. exact switch_second_step_fails. Qed.
+Print Assumptions C05_switch_second_step_fails.
+
+(* a result that would not be a valid file is refused *)
+Theorem C05_invalid_result : forall file mk steps rs bs r0 r,
+  parse_text file = Ok (Parsed rs bs) -> mk rs bs = COk r0 -> run_steps rs steps (COk r0) = COk r ->
+  ~ (exists rs' bs', parse_text (text_of_lines (rc_lines r)) = Ok (Parsed rs' bs')) ->
+  reconcile_file file mk steps = CErr CEInvalidResult.
+Proof. exact reconcile_file_invalid_result. Qed.
+Print Assumptions C05_invalid_result.
+
+(* ---- non-vacuity ---- *)
+Definition ex_now : clock := {| now_date := {| c_year := 2020; c_month := 1; c_day := 1 |}; now_h := 9; now_m := 30 |}.
+Definition ex_cfg : config := {| cfg_round := None; cfg_should := None; cfg_dashes := None; cfg_24h := None |}.
+Definition ex_file : bytes := b!"2020-01-01
+    8:00 - ?
+".
+(* `track` with a text that is not an entry: refused by the safeguard, file untouched *)
+Example ex_invalid_entry : exec ex_now ex_cfg (Track DDefault [b!"not an entry"]) ex_file = (ex_file, CErr CEInvalidResult).
+Proof. vm_cast_no_check (@eq_refl (bytes * cresult unit) (ex_file, CErr CEInvalidResult)). Qed.
+(* `switch --resume-nth 7`: the stop half would succeed, the start half fails — file untouched *)
+Example ex_switch_fails :
+  exec ex_now ex_cfg (Switch {| a_date := DDefault; a_time := None; a_round := None |}
+                             {| s_text := None; s_resume := false; s_nth := 7 |}) ex_file = (ex_file, CErr CEManipulation).
+Proof. vm_cast_no_check (@eq_refl (bytes * cresult unit) (ex_file, CErr CEManipulation)). Qed.
+(* an unparseable target *)
+Example ex_unparseable : exec ex_now ex_cfg (Track DDefault [b!"1h"]) b!"2020-01-01
+  not an entry
+" = (b!"2020-01-01
+  not an entry
+", CErr CEParse).
+Proof. vm_cast_no_check (@eq_refl (bytes * cresult unit) (b!"2020-01-01
+  not an entry
+", CErr CEParse)). Qed.
+Example ex_success : exec ex_now ex_cfg (Track DDefault [b!"1h"]) ex_file = (b!"2020-01-01
+    8:00 - ?
+    1h
+", COk tt).
+Proof. vm_cast_no_check (@eq_refl (bytes * cresult unit) (b!"2020-01-01
+    8:00 - ?
+    1h
+", COk tt)). Qed.
